@@ -190,7 +190,7 @@ func TestC28(t *testing.T) {
 		}
 	}
 
-	n := r.N(3000, 100000)
+	n := r.N(3000, 500000)
 	for i := 0; i < n && r.Violations() < 40; i++ {
 		a := c28RandAddr(rng)
 		shape := "rand"
